@@ -45,7 +45,7 @@ NAMES = ["a", "b", "c", "d", "e", "g", "x", "y", "args", "kwargs", "labels", "ta
          "signature", "value", "loop", "timeout"]
 ANN_W = [(None, 30), ("Any", 10), ("int", 16), ("str", 6), ("float", 6), ("bool", 5), ("List[int]", 5),
          ("Dict[str,int]", 4), ("Optional[int]", 5), ("M1", 5), ("M2", 2), ("D1", 4), ("D2", 1), ("X", 2),
-         ("Union[int,str]", 2), ("None", 1), ("List[M1]", 1)]
+         ("Union[int,str]", 2), ("None", 1), ("List[M1]", 1), ("NZ", 4), ("M3", 2)]
 
 
 def wchoice(r, table):
@@ -92,6 +92,9 @@ def gen_model(r, name):
         if r.random() < .5:
             kw["y"] = J(r.choice(["z", "", "5", "é"]))
         return {"model": "M1", "kw": kw}
+    if name == "M3":
+        return {"model": "M3", "kw": {"t": J([r.randrange(5), r.randrange(5)]),
+                                      "when": J(r.choice(["2024-01-02", "1999-12-31", "2031-07-15"]))}}
     kw = {"items": J([r.randrange(9) for _ in range(r.randrange(0, 3))])}
     if r.random() < .5:
         kw["inner"] = gen_model(r, "M1")
@@ -120,9 +123,11 @@ AIMED = {
     "Optional[int]": lambda r: J(r.choice([None, "5", "x", 5.0, "12"])),
     "Union[int,str]": lambda r: J(r.choice(["5", 5, 5.5, True, [1]])),
     "None": lambda r: J(r.choice([None, "x", 0])),
+    "NZ": lambda r: J(r.choice([None, None, "5", "x", 7, 2.5])),
     "X": lambda r: J(gen_json(r)),
     "M1": lambda r: r.choice([J({"x": 1}), J({"x": "3", "y": "z"}), J({"y": "z"}), gen_model(r, "M1"), J({"x": 1, "extra": 2}), J("x")]),
     "M2": lambda r: r.choice([J({"items": ["1"], "inner": {"x": 2}}), gen_model(r, "M2"), J({"items": "x"})]),
+    "M3": lambda r: r.choice([J({"t": [1, 2], "when": "2024-01-02"}), gen_model(r, "M3"), J({"t": [1], "when": "x"})]),
     "D1": lambda r: r.choice([J({"x": 1}), J({"x": "2", "y": ["3"]}), gen_dc(r, "D1"), J({"q": 1}), J([1])]),
     "D2": lambda r: r.choice([J({"name": "n", "d": {"x": 1}}), gen_dc(r, "D2"), J({"name": 1})]),
     "List[M1]": lambda r: r.choice([J([{"x": 1}]), {"l": [gen_model(r, "M1")]}, J([{"x": "2"}, {"y": 1}])]),
@@ -137,7 +142,7 @@ def gen_value(r, ann, used):
         elif k < .80:
             s = J(gen_json(r))
         elif k < .86:
-            s = gen_model(r, r.choice(["M1", "M1", "M2"]))
+            s = gen_model(r, r.choice(["M1", "M1", "M2", "M3"]))
         elif k < .92:
             s = gen_dc(r, r.choice(["D1", "D1", "D2"]))
         elif k < .93:
@@ -388,6 +393,12 @@ def literal(case, o):
     for tn, v, kind, w in o["conv"]:
         res = "(CVal %s)" % C.cn(vid(cj(w))) if kind == "val" else ("CSwallowed" if kind == "swallowed" else "CRaise")
         tb.append("((%s, %s), %s)" % (C.cn(tid(tn)), C.cn(vid(cj(v))), res))
+    full = {(e[0], cj(e[1])): i for i, e in enumerate(o["conv"])}
+    tc = []
+    for tn, v in o.get("consulted", []):
+        i = full.get((tn, cj(v)))
+        # a consulted pair outside (annotations of the signature) x (values on the wire) has no table entry: fail closed
+        tc.append(tb[i] if i is not None else "((%s, %s), CRaise)" % (C.cn(tid(tn)), C.cn(vid(cj(v)))))
     if o["outcome"] == "invoked":
         rs = []
         for p in case["params"]:
@@ -407,20 +418,61 @@ def literal(case, o):
         ob = "ORaised"
     else:
         return None
-    return C.cpair("(%s : ctable)" % C.clist(tb), C.cb(case["validate"]), "(%s : list (param nat))" % C.clist(sg),
+    return C.cpair("(%s : ctable)" % C.clist(tb), "(%s : ctable)" % C.clist(tc), C.cb(case["validate"]), "(%s : list (param nat))" % C.clist(sg),
                    "(%s : list (nat * nat))" % C.clist(hints), "(%s : list nat)" % C.clist(args),
                    "(%s : list (nat * nat))" % C.clist(kw), "(%s : obs nat)" % ob)
 
 
 COQ_HEADER = """From Coq Require Import List Bool Arith. Import ListNotations.
 From TQ Require Import Params."""
-COQ_BODY = """Fixpoint bad (i : nat) (l : list (ctable * bool * list (param nat) * list (nat * nat) * list nat * list (nat * nat) * obs nat))
+COQ_BODY = """(* tb: the real parse_obj_as on every (annotation, wire value); tc: the entries the implementation actually consulted.
+   consults_ok: the model run on tc alone gives the observation (it consults nothing else), and run on tc minus any one
+   entry it hits the hole (it consults every one of them). *)
+Definition drop (q : nat * nat * cres nat) (tc : ctable) : ctable :=
+  filter (fun e => negb ((fst (fst e) =? fst (fst q)) && (snd (fst e) =? snd (fst q)))) tc.
+Definition consults_ok (tc : ctable) validate sg h args kw (o : obs nat) : bool :=
+  obs_eqb_n (run_task_n tc validate sg h args kw) o &&
+  forallb (fun q => obs_eqb_n (run_task_n (drop q tc) validate sg h args kw) ORaised) tc.
+Fixpoint bad (i : nat) (l : list (ctable * ctable * bool * list (param nat) * list (nat * nat) * list nat * list (nat * nat) * obs nat))
   : list nat :=
   match l with
   | [] => []
-  | (tb, validate, sg, h, args, kw, o) :: t =>
-    if andb (obs_eqb_n (run_task_n tb validate sg h args kw) o) (C08_check_n tb validate sg h args kw o)
+  | (tb, tc, validate, sg, h, args, kw, o) :: t =>
+    if obs_eqb_n (run_task_n tb validate sg h args kw) o && C08_check_n tb validate sg h args kw o
+       && consults_ok tc validate sg h args kw o
     then bad (S i) t else i :: bad (S i) t
+  end.
+Eval vm_compute in bad 0%nat cases."""
+
+
+def prep_literal(case, o):
+    """(args, kwargs) as the model's pyarg, and what the real _prepare_message produced (None = it raised ValueError)"""
+    vid, nid = Ids({}), Ids({})
+
+    def arg(spec, form):
+        if "dctype" in spec:
+            return "PDataclassType"
+        return "(%s %s)" % ("PModel" if "model" in spec else "PDataclass" if "dc" in spec else "POther", C.cn(vid(cj(form))))
+
+    pf = o["prepared_forms"]
+    args = [arg(s, f) for s, f in zip(case["args"], pf["args"])]
+    kw = [C.cpair(C.cn(nid(k)), arg(s, f)) for (k, s), (_, f) in zip(case["kwargs"], pf["kwargs"])]
+    if o["kiq"] == "ok":
+        got = "(Some (%s, %s))" % (C.clist([C.cn(vid(cj(v))) for v in o["prepared"]["args"]]),
+                                   C.clist([C.cpair(C.cn(nid(k)), C.cn(vid(cj(v)))) for k, v in o["prepared"]["kwargs"]]))
+    elif o["kiq"] == "raised:ValueError":
+        got = "None"
+    else:
+        return None
+    return C.cpair("(%s : list (pyarg nat nat nat))" % C.clist(args), "(%s : list (nat * pyarg nat nat nat))" % C.clist(kw),
+                   "(%s : option (list nat * list (nat * nat)))" % got)
+
+
+PREP_BODY = """Fixpoint bad (i : nat) (l : list (list (pyarg nat nat nat) * list (nat * pyarg nat nat nat) * option (list nat * list (nat * nat))))
+  : list nat :=
+  match l with
+  | [] => []
+  | (args, kw, o) :: t => if prep_eqb (prepare_message_n args kw) o then bad (S i) t else i :: bad (S i) t
   end.
 Eval vm_compute in bad 0%nat cases."""
 
@@ -464,7 +516,7 @@ def branch_counts(rep, case, o):
 
 def explore(ctx, rep, cases, label, observe_only=False):
     obs = C.run_driver(ctx, "params_driver", cases)
-    lits, keep = [], []
+    lits, keep, plits, pkeep = [], [], [], []
     for c, o in zip(cases, obs):
         if "_crash" in o:
             rep.case(c, False)
@@ -480,6 +532,13 @@ def explore(ctx, rep, cases, label, observe_only=False):
                 rep.count("observation:" + what[:60])
             else:
                 rep.fail(what, c, observed=got, expected=want, sig=dict(src=o.get("src")))
+        pl = prep_literal(c, o)
+        if pl is not None:
+            plits.append(pl)
+            pkeep.append(c)
+            for sp in c["args"] + [x[1] for x in c["kwargs"]]:
+                rep.count("prepare:" + ("model" if "model" in sp else "dataclass" if "dc" in sp else
+                                        "dataclass_type" if "dctype" in sp else "other"))
         if o["kiq"] != "ok":
             rep.count("kiq:" + o["kiq"])
             continue
@@ -498,12 +557,17 @@ def explore(ctx, rep, cases, label, observe_only=False):
             continue
         lits.append(lit)
         keep.append(c)
-    if not lits:
-        return False
-    bad, sfails, _ = C.coq_eval(ctx, label, COQ_HEADER, lits, COQ_BODY, shard=250)
-    rep.corr(label, len(lits), bad, sfails, lambda i: keep[i])
-    rep.traces += len(lits) - len(bad)
-    return bool(bad or sfails)
+    broken = False
+    if plits:
+        bad, sfails, _ = C.coq_eval(ctx, label + "_prepare", COQ_HEADER, plits, PREP_BODY, shard=1000)
+        rep.corr(label + ":_prepare_message", len(plits), bad, sfails, lambda i: pkeep[i])
+        broken = bool(bad or sfails)
+    if lits:
+        bad, sfails, _ = C.coq_eval(ctx, label, COQ_HEADER, lits, COQ_BODY, shard=250)
+        rep.corr(label + ":run_task", len(lits), bad, sfails, lambda i: keep[i])
+        rep.traces += len(lits) - len(bad)
+        broken = broken or bool(bad or sfails)
+    return broken
 
 
 def run(ctx):
@@ -536,13 +600,14 @@ def replay(ctx, path):
     lit = literal(c, o) if o["kiq"] == "ok" else None
     if lit:
         body = COQ_BODY.replace("Eval vm_compute in bad 0%nat cases.",
-                                "Eval vm_compute in (match cases with (tb, validate, sg, h, args, kw, o) :: _ => "
-                                "Some (run_task_n tb validate sg h args kw, C08_check_n tb validate sg h args kw o) | [] => None end).\n"
+                                "Eval vm_compute in (match cases with (tb, tc, validate, sg, h, args, kw, o) :: _ => "
+                                "Some (run_task_n tb validate sg h args kw, C08_check_n tb validate sg h args kw o, "
+                                "consults_ok tc validate sg h args kw o) | [] => None end).\n"
                                 "Eval vm_compute in bad 0%nat cases.")
         d = C.os.path.join(ctx.dir, "replay")
         C.os.makedirs(d, exist_ok=True)
         rc, out = C.coq_eval_raw(ctx, "replay", COQ_HEADER + "\nDefinition cases := [\n" + lit + "\n].\n" + body)
-        print("model (values numbered per case; run_task_n, C08_check_n, mismatching indices):", " ".join(out.split())[-600:])
+        print("model (values numbered per case; run_task_n, C08_check_n, consults_ok, mismatching indices):", " ".join(out.split())[-600:])
     for what, got, want in fails:
         print("VIOLATED:", what, "\n  observed:", json.dumps(got)[:600], "\n  expected:", json.dumps(want)[:600])
     if c.get("observation"):
